@@ -15,7 +15,7 @@ LEVEL = ("Generated-input exploration over feature/target widths (smaller, equal
          "estimators: the fitted map is checked to be orthogonal resp. a partial isometry, norm non-expanding, no worse than 14 "
          "competitor maps per case, and to recover planted (semi-)orthogonal maps exactly. "
          "No absence claim: strength = the counted distinct non-trivial cases in the evidence.")
-BUDGET = {"quick": 1200, "thorough": 20000}
+BUDGET = {"quick": 1200, "thorough": 50000}
 RULE = ("Cases: n in max(f,g)+2..24 samples (thorough 60), f and g in 1..6, X normal (optionally with column scales), y either a noisy "
         "linear function of X or exactly X Q for a drawn (semi-)orthogonal Q; modes padded / projector; linear estimator default, "
         "LinearRegression(no intercept) or Ridge(alpha in {1e-10, 1, 50}); competitors: 8 random orthogonal matrices and 6 small "
